@@ -15,6 +15,7 @@ import ufl
 import ffcx.codegeneration.lnodes as L
 from ffcx.codegeneration import geometry
 from ffcx.codegeneration.backend import FFCXBackend
+from ffcx.codegeneration.integral_generator import extract_dtype
 from ffcx.codegeneration.lnodes import LNode
 from ffcx.ir.representation import ExpressionIR
 
@@ -366,14 +367,10 @@ class ExpressionGenerator:
                 self._ufl_names.add(v._ufl_handler_name_)
                 vexpr = L.ufl_to_lnodes(v, *vops)
 
-                is_cond = isinstance(v, ufl.classes.Condition)
-                is_real = isinstance(v, (ufl.classes.Real, ufl.classes.Imag))
-                if is_cond:
-                    dtype = L.DataType.BOOL
-                elif is_real:
-                    dtype = L.DataType.REAL
-                else:
-                    dtype = L.DataType.SCALAR
+                # Declare the intermediate with the type its operands deliver
+                # (as the integral generator does): a real-valued quantity
+                # must stay real, it may be an operand of <, <=, >, >=
+                dtype = extract_dtype(v, vops)
 
                 j = len(intermediates)
                 vaccess = L.Symbol(f"{symbol.name}_{j}", dtype=dtype)
